@@ -3,8 +3,10 @@
 // Generates raw PDFs with AcroForm field forests (depth 1..4, mixed Tx/Btn/Ch/Sig, inherited /FT,
 // merged field/widget dictionaries and separate widget kids, widgets with/without/with wrong /P,
 // shared annotations, orphan widgets, /Perms DocMDP/UR3, /SigFlags, /DSS, /Extensions), runs
-//   (a) api.ReadAndValidate with Cmd=REMOVESIGNATURES and inspects the in-memory context, and
-//   (b) api.RemoveSignaturesFile end to end, re-reading the written file,
+//
+//	(a) api.ReadAndValidate with Cmd=REMOVESIGNATURES and inspects the in-memory context, and
+//	(b) api.RemoveSignaturesFile end to end, re-reading the written file,
+//
 // and records both as correspondence cases against the extracted Coq model (K).  The property
 // itself is evaluated on the re-read output (O): no signature field / widget / value / Perms /
 // SigFlags / DSS left; every non-signature field and annotation, the page order and the page
@@ -54,13 +56,13 @@ type pageSpec struct {
 }
 
 type docSpec struct {
-	fields                   []*node
+	fields                    []*node
 	sf, perm, dss, legal, ext bool
-	perms                    int // 0 none, 1 DocMDP, 2 UR3
-	pages                    []pageSpec
-	others                   []other
-	next                     int // next free object number
-	acroObj                  int
+	perms                     int // 0 none, 1 DocMDP, 2 UR3
+	pages                     []pageSpec
+	others                    []other
+	next                      int // next free object number
+	acroObj                   int
 }
 
 func (d *docSpec) newID() int { d.next++; return d.next - 1 }
@@ -449,13 +451,13 @@ func top(n *node) *node {
 
 type obs struct {
 	acro, sf, perms, perm, dss, legal, ext bool
-	fields                                []int
-	pages                                 [][]int
-	absent                                []bool
-	forest                                []nodeEff
-	contentOK                             bool
-	sigValue                              bool // a dictionary with /ByteRange is in the xref table
-	problems                              []string
+	fields                                 []int
+	pages                                  [][]int
+	absent                                 []bool
+	forest                                 []nodeEff
+	contentOK                              bool
+	sigValue                               bool // a dictionary with /ByteRange is in the xref table
+	problems                               []string
 }
 
 func nameID(d types.Dict) int {
@@ -731,7 +733,7 @@ func (h *runner) doc(d *docSpec, label string) {
 		} else {
 			r.OracleOK()
 		}
-		if d.perms == 2 {
+		if d.perms == 2 && err != nil {
 			fail("usage-rights-only-rejected", "document whose only signature is /Perms /UR3: "+err.Error()+"; the usage-rights entry cannot be removed")
 		}
 		if err != nil && errors.Is(err, api.ErrNoSignatures) {
@@ -1020,6 +1022,11 @@ func (h *runner) scenarios() {
 		{"parent-widget-no-P-single-kid", func(d *docSpec) {
 			f := d.parent("Sig", d.W("", p(d, 0)))
 			f.widget, f.rect = true, true
+			d.fields = []*node{f, d.W("Tx", p(d, 0))}
+		}},
+		{"parent-widget-no-rect-single-kid", func(d *docSpec) {
+			f := d.parent("Sig", d.W("", p(d, 0)))
+			f.widget, f.p = true, p(d, 1)
 			d.fields = []*node{f, d.W("Tx", p(d, 0))}
 		}},
 		{"sig-twice-on-page", func(d *docSpec) {
@@ -1333,7 +1340,7 @@ func main() {
 	h := &runner{r: r, dir: dir}
 	h.scenarios()
 	h.samples()
-	n := r.Pick(700, 12000)
+	n := r.Pick(700, 30000)
 	for i := 0; i < n; i++ {
 		depth := 1 + r.Rand.Intn(3)
 		if r.Thorough() && r.Rand.Intn(10) == 0 {
